@@ -120,12 +120,34 @@ def evaluate(cases, rep, tier):
         for (w1, z1), (w2, z2) in zip(lst, lst[1:]):
             if tuple([f, mtu, w1]) in answers and tuple([f, mtu, w2]) in answers and z2 > z1:
                 counter.append({"input": f"gen_params {f} {mtu} {w1} / gen_params {f} {mtu} {w2}", "expected": "a larger budget never yields more source blocks", "observed": f"Z = {z1} then {z2}", "oracle": "monotonicity"})
+    # "encoder and decoder built from the derived parameters round-trip the object": EncoderBuilder end to end
+    rb = C.Rng(C.get_seed()).fork("C14rt")
+    rt = []
+    for _ in range(40 if tier == "quick" else 400):
+        mtu = rb.choice([8, 16, 63, 64, 72, 100, 128])
+        f = rb.range(1, 3000)
+        al = 8 if mtu >= 64 else 1
+        t = mtu - mtu % al
+        x = -(-t // (al * rb.range(1, max(1, t // (al * al)))))
+        ws = al * x * rb.choice([10, 12, 18, 26, 101, 1002]) + rb.range(0, 3)
+        rt.append(C.Case("builder_roundtrip", [ws, mtu, rb.choice([0, 2, 3, 5])] + list(rb.bytes(f))))
+    rres = {p: C.run_impl(rt, p) for p in PROFILES}
+    rspec = C.run_model([C.Case("spec_derive", [len(c.args) - 3, c.args[1], c.args[0]]) for c in rt])
+    for c, sp, r0, r1 in zip(rt, rspec, rres["release"], rres["dev"]):
+        t = sp.split()
+        if t[1] != "1":
+            continue
+        want = "1 " + " ".join(t[2:]) + " 1"
+        for prof, r in (("release", r0), ("dev", r1)):
+            if r != want:
+                counter.append({"input": " ".join(c.impl_line().split()[:4]) + " <%d data bytes>" % (len(c.args) - 3), "expected": "derived configuration " + " ".join(t[2:]) + " and a successful round trip", "observed": r[:80], "profile": prof, "oracle": "EncoderBuilder -> Decoder round trip on the derived parameters"})
+                break
     if accept:
         acc = C.run_impl(accept, "release")
         for c, r in zip(accept, acc):
             if not r.startswith("1"):
                 counter.append({"input": c.impl_line(), "expected": "derived configuration accepted by the constructor", "observed": r, "oracle": "result valid"})
-    kinds = {"gen_params": len(gp), "with_defaults": len(cases) - len(gp), "in_spec_domain": indom,
+    kinds = {"builder_roundtrips": len(rt), "gen_params": len(gp), "with_defaults": len(cases) - len(gp), "in_spec_domain": indom,
              "impl_panics": sum(1 for i in impl if i.startswith("0"))}
     return {"disagreements": dis, "counterexamples": counter,
             "stats": {"evaluations": len(cases) * 4 + len(gp) + len(accept), "distinct_nontrivial": len(set(answers)),
